@@ -178,7 +178,7 @@ def cases(tier):
 RECONF_BASE = {"energy": 6e4, "power": 1e6, "element": "deuterium", "length": 3.0, "step": 0.05}
 RECONF_ALT = {"energy": 1e3, "power": 2.5e5, "element": "hydrogen", "length": 1.7, "step": 0.3}
 RECONF_CHANGES = [[], ["element"], ["energy"], ["power"], ["length"], ["step"], ["element", "energy"], ["energy", "length", "step"],
-                  ["place"], ["place", "energy"], ["plasma-place"]]
+                  ["place"], ["place", "energy"], ["plasma-place"], ["plasma-object"], ["plasma-object", "energy"]]
 
 
 def _run_reconf(case):
@@ -202,7 +202,19 @@ def _run_reconf(case):
         if observe_first:
             beam.density(0.0, 0.0, 0.5 * A["length"])       # fills the attenuator's caches
         # public setters, in a fixed order
-        if ka != kb:
+        if "plasma-object" in changes:
+            # ANOTHER Plasma node (same placement, the species of kb) is assigned to the beam, the first one is emptied afterwards
+            from cherab.core import Plasma
+            sps, mode, _ = M.PLASMAS[kb]
+            plasma2 = Plasma(parent=keep[1], transform=c["mat"](M.PLASMA_OPS))
+            plasma2.composition = [c["species"](sp) for sp in sps]
+            if ka != kb:
+                beam.atomic_data = c["AD"](mode)      # BEFORE the plasma is exchanged: no other beam setter may follow the exchange (its
+                beam.density(0.0, 0.0, 0.25 * A["length"])     # notification could repair what the exchange itself forgot)
+            beam.plasma = plasma2
+            plasma.composition = []
+            keep = keep + (plasma2,)
+        elif ka != kb:
             sps, mode, _ = M.PLASMAS[kb]
             plasma.composition = [c["species"](sp) for sp in sps]
             beam.atomic_data = c["AD"](mode)
